@@ -125,6 +125,12 @@ def pChange : P Change
   | "D" :: p :: ts => some (⟨pathOfString p, .delete⟩, ts)
   | _ => none
 
+/-- `<old path> <new path | ->` -/
+def pDiffEntry : P DiffEntry
+  | s :: "-" :: ts => some (⟨pathOfString s, none⟩, ts)
+  | s :: d :: ts => some (⟨pathOfString s, some (pathOfString d)⟩, ts)
+  | _ => none
+
 def pPathOrders : P (Path × Orders) := fun ts =>
   match pTok ts with
   | none => none
